@@ -124,8 +124,11 @@ func (c *NoiseConn) Read(b []byte) (n int, err error) {
 	// of our AEAD connection, and the stream abstraction of TCP, we
 	// maintain an intermediate read buffer. If this buffer becomes
 	// depleted, then we read the next record, and feed it into the
-	// buffer. Otherwise, we read directly from the buffer.
-	if c.readBuf.Len() == 0 {
+	// buffer. Otherwise, we read directly from the buffer. An empty record
+	// (a zero-length Write of the peer) carries nothing to hand out, and
+	// reading from the empty buffer would report io.EOF, so we move on to
+	// the next record.
+	for c.readBuf.Len() == 0 {
 		plaintext, err := c.noise.ReadMessage(c.conn)
 		if err != nil {
 			return 0, err
